@@ -21,9 +21,11 @@ R(toks, ast) == [toks |-> toks, ast |-> ast]
 RECURSIVE UP(_,_,_), Body(_,_), LetParts(_,_)
 \* t.np ("no parentheses"): the parentheses the grammar REQUIRES around this node are left out -- the result is either not a
 \* sentence or a sentence with another tree; used to probe over-acceptance beyond the token bound of the exhaustive check
+\* every syntax-tree node also carries sp = <<first, last>>: the token positions of its own text (without parentheses
+\* written around it) -- what its source range must cover (C15)
 UP(t, req, off) == IF (t.p \/ Native(t) > req) /\ ~t.np
-                   THEN LET r == Body(t, off + 1) IN R(<<"LEFT_PAREN">> \o r.toks \o <<"RIGHT_PAREN">>, r.ast)
-                   ELSE Body(t, off)
+                   THEN LET r == Body(t, off + 1) IN R(<<"LEFT_PAREN">> \o r.toks \o <<"RIGHT_PAREN">>, r.ast @@ ("sp" :> <<off + 2, off + 1 + Len(r.toks)>>))
+                   ELSE LET r == Body(t, off) IN R(r.toks, r.ast @@ ("sp" :> <<off + 1, off + Len(r.toks)>>))
 \* the definitions of the group that starts at t and its body; an unparenthesised let in body position joins the group
 LetParts(t, off) ==
   LET an == IF t.ann THEN UP(t.a, 2, off + 2) ELSE R(<<>>, HoleA)
